@@ -95,6 +95,31 @@ theorem intsOnlyMembers_numsStable : ∀ (l : List (String × Json)), intsOnlyMe
     exact ⟨intsOnly_numsStable x h.1, intsOnlyMembers_numsStable xs h.2⟩
 end
 
+/-! ### the two integers ±2^53
+
+2^53 is still exactly a double (its neighbour 2^53 + 1 is the first integer that is not); the
+builders of C08 admit it as an anchoring bound. It is outside `canon_ofNat` (whose proof uses
+`n < 2^53` for the 53-bit mantissa), so the kernel evaluates the printer on it. -/
+
+theorem canon_two_pow_53 : (JNum.ofNat 9007199254740992).canon = some (natDigits 9007199254740992) := by decide
+theorem canon_neg_two_pow_53 :
+    (JNum.ofInt (-9007199254740992)).canon = some ('-' :: natDigits 9007199254740992) := by decide
+
+/-- every integer of magnitude up to and including 2^53 is stable -/
+theorem int_stable_le (i : Int) (h : i.natAbs ≤ 2 ^ 53) : (JNum.ofInt i).Stable := by
+  by_cases hlt : i.natAbs < 2 ^ 53
+  · exact int_stable i hlt
+  · have he : i.natAbs = 9007199254740992 := by omega
+    have hi : i = 9007199254740992 ∨ i = -9007199254740992 := by omega
+    rcases hi with rfl | rfl
+    · refine RT.stable_of_int _ ?_ (fun rest hr => parseNumber_intDigits _ rest hr)
+      have : JNum.ofInt 9007199254740992 = JNum.ofNat 9007199254740992 := by decide
+      rw [this, canon_two_pow_53]
+      rfl
+    · refine RT.stable_of_int _ ?_ (fun rest hr => parseNumber_intDigits _ rest hr)
+      rw [canon_neg_two_pow_53]
+      rfl
+
 /-- **`parse ∘ jcs = normalize` on values whose numbers are integers below 2^53**: the RFC 8785
     encoding of such a value is accepted by the strict reader and read back as the value's normal
     form. (Extends `canonical_text_reads_back_partial`, which it contains: a value without numbers
